@@ -255,10 +255,16 @@ func c04Case(c *Ctx, fn *ssa.Function, b *ana.Builder) {
 	r.Fn(ana.ShortFunc(vc))
 	vb := ana.NewBuilder(c.P, vc)
 	// the helper must use two probes: first index where ToLower(s) differs from s, and where ToUpper(s) differs
-	probes := map[string]*ssa.Function{}
+	// (decided per call, the probe's parameters bound to its arguments: one shared routine handed the folded string is
+	// the same two probes)
+	probes := map[string]*ana.Term{}
 	for _, ci := range ana.Calls(vc) {
-		if cal := ana.StaticRepoCallee(ci.Common()); cal != nil {
-			pb := ana.NewBuilder(c.P, cal)
+		if cal := ana.StaticRepoCallee(ci.Common()); cal != nil && cal.Blocks != nil {
+			call := stripObj(vb.CallTermAt(ci))
+			if call == nil || call.Op != "call" || len(call.Args) != len(cal.Params) {
+				continue
+			}
+			pb := c.boundBuilder(call)
 			for _, fold := range []string{"strings.ToLower", "strings.ToUpper"} {
 				// the probe's exits, looking through a shared "first difference" helper it may tail-call
 				idx := "alt(ext#1(next(range(p0))), ind<+1>(0))"
@@ -281,7 +287,7 @@ func c04Case(c *Ctx, fn *ssa.Function, b *ana.Builder) {
 					any = any || found
 				}
 				if ok && any {
-					probes[fold] = cal
+					probes[fold] = call
 					r.Fn(ana.ShortFunc(cal))
 				}
 			}
@@ -292,8 +298,8 @@ func c04Case(c *Ctx, fn *ssa.Function, b *ana.Builder) {
 	if probes["strings.ToLower"] == nil || probes["strings.ToUpper"] == nil {
 		return
 	}
-	up := "call<" + probes["strings.ToLower"].String() + ">(p0)" // first upper-case character
-	lo := "call<" + probes["strings.ToUpper"].String() + ">(p0)" // first lower-case character
+	up := probes["strings.ToLower"].String() // first upper-case character
+	lo := probes["strings.ToUpper"].String() // first lower-case character
 	// value-set analysis over (up, lo) in -1..3: error iff both >= 0
 	vs := &ana.VSA{B: vb, Tracked: []string{up, lo}, Ranges: [][2]int64{{-1, 3}, {-1, 3}}}
 	sets, tuples := vs.Run()
